@@ -43,7 +43,8 @@
    wfuel (the `while` budget) is arbitrary: the path has no while loop. *)
 From Coq Require Import ZArith NArith List String Bool Lia.
 From PyRtcm Require Import Base.Bytes Model.Types Model.Message.
-From PyRtcm Require Import Src.PyO Src.ReaderEnv Src.MsgDecEnv Src.PyOMsgDecLemmas.
+From PyRtcm Require Import Proofs.DecodeWalk.
+From PyRtcm Require Import Src.PyO Src.ReaderEnv Src.MsgDecEnv Src.PyOMsgDecLemmas Src.PyOMsgDecGuard.
 From PyRtcm Require Src.PyOMsgDecWalkLemmas.
 From PyRtcmGen Require Import SrcOMsgDec.
 From PyRtcmGen Require SrcMsgDecSingle_inst SrcMsgDecWalk_inst SrcMsgDecTop_inst.
@@ -207,6 +208,49 @@ Corollary src_construct_none D l : tables_ok T = true -> (6 <= D)%nat ->
 Proof. intros HT HD. exact (src_construct_guarded D None l HT eq_refl HD). Qed.
 End Compose.
 
+(* ================= the guard is never met: the source against the model's constructor itself ================= *)
+(* Src/PyOMsgDecGuard.v: under decidable conditions on the tables (gt_ok T cks; cks = the repeat-count keys of the layouts considered)
+   and on the layout (g_body cks false b), the test single_pre holds at every field the walk reaches and no repeat count is a str:
+   the guarded constructor IS the model's constructor. *)
+Definition guard_cond (T:tables) (cks:list string) (po:option bytes) : bool :=
+  gt_ok T cks && match msg_layout T po with Some b => g_body cks false b | None => true end.
+
+Lemma ditems_g_eq T ident l s : S3.ditems (ditem_g T) ident l s = WL.dec_items_s (leaf_g T ident) [] l s.
+Proof.
+  revert s. induction l as [|[lbl it] r IH]; intro s; [reflexivity|]. cbn [S3.ditems WL.dec_items_s]. unfold ditem_g at 1.
+  destruct (WL.dec_item_s (leaf_g T ident) lbl it [] s); cbn [obind]; auto.
+Qed.
+
+Theorem construct_g_eq T cks po l : guard_cond T cks po = true -> construct_g T po l = construct T po l.
+Proof.
+  intro HG. unfold guard_cond in HG. apply andb_true_iff in HG. destruct HG as [GT GL].
+  unfold construct_g. destruct po as [p|]; [|reflexivity]. cbn [S3.construct_w construct]. destruct (too_short p); [reflexivity|].
+  assert (E : S3.do_attributes_w T (ditem_g T) (obj0 p l) = do_attributes T (obj0 p l)).
+  { unfold S3.do_attributes_w, do_attributes. cbn [o_payload obj0]. unfold msg_layout in GL.
+    destruct (identity p) as [ident|e|k|w]; cbn [obind]; try reflexivity.
+    destruct (get_dict T ident) as [[ly|w]|]; cbn [S3.dbody]; try reflexivity.
+    rewrite ditems_g_eq, <- WL.dec_body_items_s. unfold leaf_g.
+    rewrite (guarded_body_eq T cks GT ident (BItems ly) _ 0%Z GL) by (apply Inv_nil; reflexivity). reflexivity. }
+  rewrite E. reflexivity.
+Qed.
+
+(* (4) THE COMPOSED THEOREM: __init__ from the empty store is the model's constructor.  Nothing is claimed only where the MODEL
+   itself says "not modelled" (a float used as an integer or as a condition, a repeat count beyond max_count, ... -- see
+   Model/Message.v). *)
+Theorem src_construct_eq T wfuel cks D po l :
+  tables_ok T = true -> layout_cond T po = true -> guard_cond T cks po = true -> (depth_needed T po <= D)%nat ->
+  let r := rrun dob W (msgdec_ext T) wfuel srco_msgdec_prog D "__init__" [S3.payload_val po; VInt l] [] tt in
+  match construct T po l with
+  | Ok o' => exists a', r = (ROk VNone, (a', tt)) /\ store_rel a' o' /\ o_immutable o' = true
+  | Lib e => exists a', r = (RExc (liberr_class e), (a', tt))
+  | Foreign k => exists a', r = (RExc (dec_exc_class k), (a', tt))
+  | Unmodelled _ => True
+  end.
+Proof.
+  intros HT HL HG HD. pose proof (src_construct_guarded T wfuel D po l HT HL HD) as H.
+  rewrite (construct_g_eq T cks po l HG) in H. exact H.
+Qed.
+
 (* ================= the conditions for every layout of the tables at once ================= *)
 (* every layout of the three tables, except those of the identities in excl, passes layout_ok and nests at most maxd deep *)
 Definition all_layouts (T:tables) : list (string * body) := (t_get T ++ t_msm T ++ t_igs T)%list.
@@ -273,8 +317,36 @@ Proof.
   apply src_construct_model; [exact HT|exact H1|lia|exact HF].
 Qed.
 
+(* the guard conditions for every layout of the tables at once *)
+Definition layouts_guard_ok (T:tables) (excl cks:list string) : bool :=
+  gt_ok T cks && forallb (fun kv => existsb (String.eqb (fst kv)) excl || g_body cks false (snd kv)) (all_layouts T).
+Lemma layouts_guard_msg T excl cks po : layouts_guard_ok T excl cks = true -> not_excluded excl po = true -> guard_cond T cks po = true.
+Proof.
+  unfold layouts_guard_ok, guard_cond. intros HL HN. apply andb_true_iff in HL. destruct HL as [H1 H2]. rewrite H1. cbn [andb].
+  unfold not_excluded, msg_ident, msg_layout in *.
+  destruct po as [p|]; [|reflexivity]. destruct (identity p) as [ident|e|k|w]; try reflexivity.
+  destruct (get_dict T ident) as [b|] eqn:EG; [|reflexivity].
+  rewrite forallb_forall in H2. specialize (H2 _ (get_dict_In T ident b EG)). cbn [fst snd] in H2.
+  apply negb_true_iff in HN. rewrite HN in H2. exact H2.
+Qed.
+Theorem src_construct_eq_all T wfuel excl cks maxd D po l :
+  tables_ok T = true -> layouts_ok T excl maxd = true -> layouts_guard_ok T excl cks = true ->
+  (6 + maxd <= D)%nat -> not_excluded excl po = true ->
+  let r := rrun dob W (msgdec_ext T) wfuel srco_msgdec_prog D "__init__" [S3.payload_val po; VInt l] [] tt in
+  match construct T po l with
+  | Ok o' => exists a', r = (ROk VNone, (a', tt)) /\ store_rel a' o' /\ o_immutable o' = true
+  | Lib e => exists a', r = (RExc (liberr_class e), (a', tt))
+  | Foreign k => exists a', r = (RExc (dec_exc_class k), (a', tt))
+  | Unmodelled _ => True
+  end.
+Proof.
+  intros HT HL HG HD HN. destruct (layouts_ok_msg T excl maxd po HL HN) as [H1 H2].
+  apply (src_construct_eq T wfuel cks); [exact HT|exact H1|exact (layouts_guard_msg T excl cks po HG HN)|lia].
+Qed.
+
 Goal True. idtac "PA:construct_g_refines". Abort.
 Print Assumptions construct_g_refines.
+(* each of the following walks the whole symbolic execution of the three files: ~13 s apiece *)
 Goal True. idtac "PA:src_construct_guarded". Abort.
 Print Assumptions src_construct_guarded.
 Goal True. idtac "PA:src_construct_model". Abort.
@@ -283,3 +355,9 @@ Goal True. idtac "PA:src_construct_guarded_all". Abort.
 Print Assumptions src_construct_guarded_all.
 Goal True. idtac "PA:src_construct_model_all". Abort.
 Print Assumptions src_construct_model_all.
+Goal True. idtac "PA:construct_g_eq". Abort.
+Print Assumptions construct_g_eq.
+Goal True. idtac "PA:src_construct_eq". Abort.
+Print Assumptions src_construct_eq.
+Goal True. idtac "PA:src_construct_eq_all". Abort.
+Print Assumptions src_construct_eq_all.
